@@ -1,3 +1,172 @@
 import Ptk.Proto
--- stub: the C05 model driver has not been written yet
-def main : IO Unit := Ptk.Proto.run fun _ => "bad-op"
+import Ptk.Model.C05
+open Ptk Ptk.Py Ptk.Proto Ptk.C05
+
+/-! Line-protocol driver for the C05 model.
+
+  `init k <nlines> <line>* <idx> <cur> <ro> <hs>`   set buffer k (0 = current/default, 1 = search)
+  `op k <name> <args>*`                              one API call / raw write on buffer k
+  `sync k`                                           print buffer k
+  `app <viMode> <mode> <opPending> <opArg> <waiting> <digraph1|N> <tempNav> <arg|N>`
+  `hop <hop>`                                        one handler op applied directly
+  `hbegin <saveBefore>` / `h <hop>` / `hend`         `_call_handler` with the collected program
+  `accept <N|int>`                                   `validate_and_handle` (validator result)
+-/
+
+structure D where
+  app : App
+  b1 : Buf
+  prog : List HOp
+  save : Bool
+
+def emptyBuf : Buf :=
+  { lines := [[]], idx := 0, cur := 0, sel := none, multi := [], undo := [], redo := [],
+    readOnly := false, hsearch := none, enableHS := false }
+
+def vi0 : Vi :=
+  { mode := .insert, opPending := false, opArg := none, waitingDigraph := false, digraph1 := none,
+    tempNav := false, recording := none, curRecording := [] }
+
+def encOutcome : Outcome → String
+  | .ok => "ok" | .readOnly => "ro" | .assertion => "err:AssertionError" | .indexError => "err:IndexError"
+
+def encOptStr : Option Text → String
+  | none => "N" | some t => encStr t
+def decOptStr (tok : String) : Option (Option Text) :=
+  if tok == "N" then some none else (decStr tok).map some
+
+def encEntry : Option (Text × Nat) → String
+  | none => "N" | some (t, p) => s!"{encStr t}@{p}"
+
+def encBuf (b : Buf) : String :=
+  let text := match b.lines[b.idx]? with | some t => encStr t | none => "X"
+  let sel := match b.sel with | none => "N" | some s => s!"{s.anchor}:{s.typ}"
+  s!"{text} {b.cur} {b.idx} {b.lines.length} {sel} [{encList encInt b.multi}] {b.undo.length} {b.redo.length} {encEntry b.undo.head?} {encEntry b.redo.head?} {encOptStr b.hsearch}"
+
+def encMode : InputMode → String
+  | .insert => "0" | .insertMultiple => "1" | .navigation => "2" | .replace => "3" | .replaceSingle => "4"
+def decMode (tok : String) : Option InputMode :=
+  match tok with
+  | "0" => some .insert | "1" => some .insertMultiple | "2" => some .navigation
+  | "3" => some .replace | "4" => some .replaceSingle | _ => none
+
+def encVi (a : App) : String :=
+  s!"{encBool a.viMode} {encMode a.vi.mode} {encBool a.vi.opPending} {encOptInt a.vi.opArg} {encBool a.vi.waitingDigraph} {encOptStr a.vi.digraph1} {encBool a.vi.tempNav} {encOptStr a.vi.recording} {encStr a.vi.curRecording} {encOptStr a.arg} nav={encBool (viNavigationMode a)}"
+
+def takeN (n : Nat) (l : List String) : Option (List String × List String) :=
+  if l.length < n then none else some (l.take n, l.drop n)
+
+def decInts : List String → Option (List Int)
+  | [] => some []
+  | t :: ts => do pure ((← decInt t) :: (← decInts ts))
+
+def parseOp : List String → Option (Sum Op Raw)
+  | ["cur", v] => do pure (.inl (.setCursor (← decInt v)))
+  | ["text", t] => do pure (.inl (.setText (← decStr t)))
+  | ["doc", t, c, bp] => do pure (.inl (.setDocument (← decStr t) (← decInt c) (← decBool bp)))
+  | ["widx", i] => do pure (.inl (.setWorkingIndex (← decNat i)))
+  | ["reset", t, c] => do pure (.inl (.reset (← decStr t) (← decNat c)))
+  | ["save", c] => do pure (.inl (.saveUndo (← decBool c)))
+  | ["undo"] => some (.inl .undo)
+  | ["redo"] => some (.inl .redo)
+  | ["startsel", t] => do pure (.inl (.startSelection (← decNat t)))
+  | ["exitsel"] => some (.inl .exitSelection)
+  | ["appendleft", t] => do pure (.inl (.appendLeft (← decStr t)))
+  | ["move", d] => do pure (.inl (.moveCursor (← decInt d)))
+  | ["ins", d, o, m] => do pure (.inl (.insertText (← decStr d) (← decBool o) (← decBool m)))
+  | ["del", n] => do pure (.inl (.delete (← decNat n)))
+  | ["delb", n] => do pure (.inl (.deleteBefore (← decNat n)))
+  | ["hfwd", c] => do pure (.inl (.historyForward (← decInt c)))
+  | ["hback", c] => do pure (.inl (.historyBackward (← decInt c)))
+  | ["goto", i] => do pure (.inl (.goToHistory (← decNat i)))
+  | ["search", i, c] => do pure (.inl (.applySearch (← decNat i) (← decInt c)))
+  | ["cutsel", t, c] => do pure (.inl (.cutSelection (← decStr t) (← decInt c)))
+  | ["sel", "N"] => some (.inl .exitSelection)
+  | ["sel", a, t] => do pure (.inr (.selWrite (← decInt a) (← decNat t)))
+  | "multi" :: ps => do pure (.inr (.multi (← decInts ps)))
+  | ["hs", v] => do pure (.inr (.hsearch (← decOptStr v)))
+  | _ => none
+
+def parseHOp : List String → Option HOp
+  | ["mode", m] => do pure (.setMode (← decMode m))
+  | ["setop", p, a] => do pure (.setOp (← decBool p) (← decOptInt a))
+  | ["digraph", w, s] => do pure (.setDigraph (← decBool w) (← decOptStr s))
+  | ["tempnav", t] => do pure (.setTempNav (← decBool t))
+  | ["arg", a] => do pure (.setArg (← decOptStr a))
+  | ["vireset"] => some .viReset
+  | toks => match parseOp toks with
+    | some (.inl op) => some (.buf op)
+    | some (.inr r) => some (.raw r)
+    | none => none
+
+def applyBuf (b : Buf) (toks : List String) : Option (Buf × Outcome) :=
+  match parseOp toks with
+  | some (.inl op) => some (step b op)
+  | some (.inr r) => some (stepRaw b r, .ok)
+  | none => none
+
+def parseInit (rest : List String) : Option Buf := do
+  match rest with
+  | n :: rest =>
+    let n ← decNat n
+    let (ls, rest) ← takeN n rest
+    let lines ← ls.mapM decStr
+    match rest with
+    | [idx, cur, ro, hs] =>
+      pure { emptyBuf with lines := lines, idx := (← decNat idx), cur := (← decNat cur),
+                           readOnly := (← decBool ro), enableHS := (← decBool hs) }
+    | _ => none
+  | _ => none
+
+def stepLine (d : D) (toks : List String) : D × String :=
+  match toks with
+  | "init" :: k :: rest =>
+    match parseInit rest with
+    | some b =>
+      if k == "0" then ({ d with app := { d.app with buf := b } }, encBuf b)
+      else ({ d with b1 := b }, encBuf b)
+    | none => (d, "bad-op")
+  | "op" :: k :: rest =>
+    let b := if k == "0" then d.app.buf else d.b1
+    match applyBuf b rest with
+    | some (b', o) =>
+      let d' := if k == "0" then { d with app := { d.app with buf := b' } } else { d with b1 := b' }
+      (d', s!"{encOutcome o} {encBuf b'}")
+    | none => (d, "bad-op")
+  | ["sync", k] => (d, encBuf (if k == "0" then d.app.buf else d.b1))
+  | ["app", vm, m, op, oa, w, s, tn, ar] =>
+    match decBool vm, decMode m, decBool op, decOptInt oa, decBool w, decOptStr s, decBool tn, decOptStr ar with
+    | some vm, some m, some op, some oa, some w, some s, some tn, some ar =>
+      let a := { d.app with viMode := vm, arg := ar,
+                            vi := { vi0 with mode := m, opPending := op, opArg := oa, waitingDigraph := w,
+                                             digraph1 := s, tempNav := tn } }
+      ({ d with app := a }, encVi a)
+    | _, _, _, _, _, _, _, _ => (d, "bad-op")
+  | "hop" :: rest =>
+    match parseHOp rest with
+    | some h =>
+      let (a, o) := hstep d.app h
+      ({ d with app := a }, s!"{encOutcome o} {encBuf a.buf} | {encVi a}")
+    | none => (d, "bad-op")
+  | ["hbegin", s] =>
+    match decBool s with
+    | some s => ({ d with prog := [], save := s }, "-")
+    | none => (d, "bad-op")
+  | "h" :: rest =>
+    match parseHOp rest with
+    | some h => ({ d with prog := d.prog ++ [h] }, "-")
+    | none => (d, "bad-op")
+  | ["hend"] =>
+    let (a, o) := callHandler (fun a => hrun a d.prog) d.save d.app
+    ({ d with app := a, prog := [] }, s!"{encOutcome o} {encBuf a.buf} | {encVi a}")
+  | ["accept", v] =>
+    match decOptInt v with
+    | some v =>
+      let (b, r) := validateAndHandle (fun _ _ => v) d.app.buf
+      ({ d with app := { d.app with buf := b } }, s!"{encOptStr r} {encBuf b}")
+    | none => (d, "bad-op")
+  | _ => (d, "bad-op")
+
+def main : IO Unit :=
+  runS stepLine { app := { buf := emptyBuf, vi := vi0, viMode := true, arg := none }, b1 := emptyBuf,
+                  prog := [], save := false }
